@@ -1,6 +1,7 @@
 /-
   C02 — query results follow spec field collection and completion (dynamic schemas).
-  Property theorems only (lemmas: AGV/Lemmas/ExecDynamic.lean, AGV/Lemmas/ExecStatic.lean).
+  Property theorems only (lemmas: AGV/Lemmas/ExecDynamic.lean, AGV/Lemmas/ExecDynamicData.lean,
+  AGV/Lemmas/ExecStatic.lean, AGV/Lemmas/ExecStaticData.lean).
 
   OBLIGATION c02_key_order
   OBLIGATION c02_type_condition
@@ -17,19 +18,36 @@
   OBLIGATION c02_nested_list_merge_repaired_example
   OBLIGATION c03dyn_no_capture_witness
   OBLIGATION c03dyn_error_path_witness
-  OPEN c02_data_full
+  OBLIGATION c02_data_full_needs_validity
+  OBLIGATION c02_data_full_needs_typed_world
+  OBLIGATION c02_collect_spread_once
+  OBLIGATION c02_data_partial_nodup
+  OBLIGATION c02_data_partial_nodup_example
+  OPEN c02_data_mergeable_full
+
+  `c02_data_full` (the statement as first written, without hypotheses) is REFUTED, twice:
+  `c02_data_full_needs_validity` (an unknown field under a repeated response key) and
+  `c02_data_full_needs_typed_world` (a scalar value handed to an object-typed field).  What holds:
+  `c02_data_partial_nodup` (all worlds whose object-typed positions receive object identities — resolver
+  failures, `Value::Null`, nulls in non-null positions, ill-typed leaves, rejected custom scalars
+  included — for documents without repeated response keys); open: the restated full statement
+  `c02_data_mergeable_full` (repeated keys — the merge lemma).
 -/
 import AGV.Lemmas.ExecDynamic
+import AGV.Lemmas.ExecDynamicData
 import AGV.Spec.ExecDyn
 
 namespace AGV.Props.C02
-open AGV.Core AGV.Model.ExecDynamic AGV.Lemmas.ExecDynamic
+open AGV.Core AGV.Model.ExecDynamic AGV.Lemmas.ExecDynamic AGV.Lemmas.ExecDynamicData
 open AGV.Lemmas.ExecStatic (newKeys keys_foldl_insertKV)
+open AGV.Lemmas.ExecStaticData (selsInert spreads IsObj SchemaOK eraseSt rootOf)
 
-/-- FULL STATEMENT (open): for every run-time assembled schema, document, variables and data
+/-- The statement as first written: for every run-time assembled schema, document, variables and data
     world, the data of the executor model with no defect equals the data of the specification's
-    execution algorithm (resolver values read as in Spec/ExecDyn.lean).  Tied by the correspondence
-    check only: the judge evaluates both sides on every generated case. -/
+    execution algorithm (resolver values read as in Spec/ExecDyn.lean).  It carries no validity or
+    typing hypothesis and is FALSE (`c02_data_full_needs_validity`, `c02_data_full_needs_typed_world`
+    below).  Proved instead: `c02_data_partial_nodup`; restated with hypotheses and open:
+    `c02_data_mergeable_full`.  The equation itself is still checked per generated case by the judge. -/
 def c02_data_full : Prop :=
   ∀ (S : Schema) (d : Doc) (op : Option String) (vars : List (String × GValue)) (w : World),
     (∀ fuel ≥ AGV.Spec.Exec.fuelBound d,
@@ -234,5 +252,122 @@ theorem c03dyn_error_path_witness :
     (AGV.Spec.ExecDyn.run S0 docBad none [] wBad 10).errs = [⟨[.key "bad"], p0⟩] ∧
     (run Defects.none S0 docBad none [] wBad 10).errs = [⟨[.key "bad"], p0⟩] := by
   refine ⟨?_, ?_, ?_⟩ <;> rfl
+
+-- ------------------------------------------------------------------ the full statement needs hypotheses
+
+/-- `{ x: zz  x: ok }`: the first occurrence of the response key `x` names a field the root type does
+    not have (rejected by validation rule 5.3.1) -/
+def docShadow : Doc := qdoc [Sel.field (some "x") "zz" [] [] [] p0, Sel.field (some "x") "ok" [] [] [] p0]
+
+/-- `c02_data_full` as first stated (no validity hypothesis) is FALSE.  An unknown field ALONE is
+    harmless here (the dynamic `collect_fields` skips it, the specification's executor finds no field
+    definition and skips it too), but when it shares its response key with a later, existing field the
+    specification's grouping looks at the first occurrence and drops the whole key, while the executor
+    model answers `{"x": 1}`.  Such documents never reach the executor (validation rejects them). -/
+theorem c02_data_full_needs_validity : ¬ c02_data_full := by
+  intro h
+  have h1 := h S0 docShadow none [] wBad 4 (by simp [AGV.Spec.Exec.fuelBound, AGV.Spec.Exec.selCount, docShadow, qdoc])
+  have hm : (run Defects.none S0 docShadow none [] wBad 4).val = some (.obj [("x", .int 1)]) := by rfl
+  have hs : (AGV.Spec.ExecDyn.run S0 docShadow none [] wBad 4).val = some (.obj []) := by rfl
+  rw [hm, hs] at h1
+  simp at h1
+
+/-- the resolver of `o: O` hands over the scalar `5` -/
+def wLeafObj : World := { entries := [((0, "o"), .leaf (.int 5))] }
+def docTn : Doc := qdoc [fld "o" [fld "__typename"]]
+
+/-- … and validity alone is not enough either: the statement quantifies over ALL data worlds.  For a
+    VALID document, when a resolver hands a non-null scalar to an object-typed field, `resolve_value`'s
+    arm `(Type::Object(object), _)` runs the selection set on it whatever the value is — the model
+    answers `{"o": {"__typename": "O"}}`, the specification (an internal value that is no object of
+    type `O`) `{"o": null}`.  The generator never builds such worlds (props/C02.json, assumptions);
+    `c02_data_partial_nodup` asks for `rvOK` instead. -/
+theorem c02_data_full_needs_typed_world :
+    (run Defects.none S0 docTn none [] wLeafObj 10).val = some (.obj [("o", .obj [("__typename", .str "O")])]) ∧
+    (AGV.Spec.ExecDyn.run S0 docTn none [] wLeafObj 10).val = some (.obj [("o", .null)]) ∧
+    AGV.Spec.Exec.fuelBound docTn ≤ 10 := by
+  refine ⟨by rfl, by rfl, by simp [AGV.Spec.Exec.fuelBound, AGV.Spec.Exec.selCount, docTn, qdoc, fld]⟩
+
+-- ------------------------------------------------------------------ stage 1: field collection
+
+/-- CollectFields: with the union-condition defect repaired, on a consistent schema, when every
+    selected field exists on the runtime type, no directive acts and no fragment name is spread twice
+    within the selection set, the dynamic `collect_fields` collects exactly the specification's
+    occurrences (type conditions on objects, interfaces and unions; named and inline fragments; any
+    nesting) — the specification being run on `Spec.ExecDyn.specSchema` -/
+theorem c02_collect_spread_once (c : Model.ExecDynamic.Ctx) (hD : c.D = Defects.none) (hok : SchemaOK c.S)
+    (rt : String) (hrt : IsObj c.S rt) (hfr : ∀ f ∈ c.d.frags, selsInert c.vars f.sels = true)
+    (fuel : Nat) (sels : List Sel) (hin : selsInert c.vars sels = true)
+    (hfe : fieldsExist c rt fuel sels = true) (hnd : (spreads c.d fuel sels).Nodup) :
+    (AGV.Spec.Exec.collect (sc c) rt fuel sels []).1 = (Model.ExecDynamic.collect c rt fuel sels).map eraseSt :=
+  (collect_agree c hD hok rt hrt hfr fuel sels [] hin hfe hnd (by intro n _; simp)).1
+
+-- ------------------------------------------------------------------ stage 2: data, distinct response keys
+
+/-- DATA EQUALITY for documents without repeated response keys.  For every schema, document,
+    variables, world and every fuel: if, for the selected operation,
+      * the schema is consistent (`SchemaOK`, implied by the decidable `schemaWF`), the built-in scalar
+        names are plain scalars and custom scalars carry one of the described validators or none
+        (`DynSchemaOK` ⇐ `dynSchemaWF`), a field name has one base type and every field type is
+        registered (⇐ `fieldsWF`),
+      * no `@skip`/`@include` acts (`selsInert`; present-but-inert directives are allowed),
+      * object-typed positions receive nothing, `Value::Null` or an object identity of the declared
+        type, through the list structure of the declared type (`rvOK`; anything may fail, and anything
+        goes at scalar, enum, interface and union positions: ill-typed leaves, values the validator
+        rejects, unknown enum items, enum items by string, runtime types the abstract type does not
+        allow, non-lists for lists, `Value::Null` in non-null positions), echoed arguments are
+        internal values already (⇐ `worldOK`),
+      * `noRepeatedKeys`: at every selection set reached, for every possible runtime type, the
+        collected response keys are pairwise distinct, no fragment name is spread twice and every
+        selected field exists,
+    then the executor model without defects returns exactly the data of the specification's executor
+    run on `Spec.ExecDyn`'s reading of schema and world. -/
+theorem c02_data_partial_nodup (S : Schema) (d : Doc) (opName : Option String) (raw : List (String × GValue))
+    (w : World) (fuel : Nat)
+    (H : ∀ op, AGV.Spec.Exec.selectOp d opName = some op → RunHyps S d op raw w fuel) :
+    (Model.ExecDynamic.run Defects.none S d opName raw w fuel).val = (AGV.Spec.ExecDyn.run S d opName raw w fuel).val :=
+  run_val_eq S d opName raw w fuel H
+
+/-- the hypotheses of `c02_data_partial_nodup` hold for `Ex.doc1`:
+    `{ obj { ...F ... on U { nn } } node { __typename ... on P { nm: name } ... on O { a } }
+       items { a @include(if: true) nn } e ev tok grid }`
+    with `fragment F on I { name ... @skip(if: false) { a } }` over a schema with an interface, a union,
+    an enum, two custom scalars with validators and a nested list, in a world with a failing resolver,
+    a `Value::Null` in an `Int!` position, an enum item named by a string and a rejected custom scalar -/
+theorem c02_data_partial_nodup_example :
+    ∀ op, AGV.Spec.Exec.selectOp Ex.doc1 none = some op → RunHyps Ex.S1 Ex.doc1 op [] Ex.w1 10 :=
+  Ex.runHyps
+
+example : (run Defects.none Ex.S1 Ex.doc1 none [] Ex.w1 10).val = (AGV.Spec.ExecDyn.run Ex.S1 Ex.doc1 none [] Ex.w1 10).val :=
+  c02_data_partial_nodup Ex.S1 Ex.doc1 none [] Ex.w1 10 c02_data_partial_nodup_example
+
+/-- the instance is not vacuous: `obj` is nulled by the `Value::Null` in `nn: Int!`, `items[i].a` by the
+    failing resolver, `ev` by the validator -/
+example : (run Defects.none Ex.S1 Ex.doc1 none [] Ex.w1 10).val = some (.obj [("obj", .null),
+    ("node", .obj [("__typename", .str "P"), ("nm", .str "p")]),
+    ("items", .list [.obj [("a", .null), ("nn", .int 7)], .obj [("a", .null), ("nn", .int 7)]]),
+    ("e", .str "X"), ("ev", .null), ("tok", .str "t"),
+    ("grid", .list [.list [.int 1, .null], .null])]) := by rfl
+
+-- ------------------------------------------------------------------ stage 3 (open): repeated response keys
+
+/-- OPEN — the full statement, restated with the hypotheses found necessary (validity in the sense
+    of `mergeableKeys`: every selected field exists, occurrences of one response key name the same
+    field with the same arguments, recursively on the merged sub-selections; a consistent schema
+    description; directives that do not act; object-typed positions receive object identities): the
+    executor model without defects returns the specification's data, in every such world (faults
+    included), once the fuel covers the merge depth (`3 * fuelBound`: the model of `insert_value`
+    spends fuel per list level).  `c02_data_partial_nodup` is the case of pairwise distinct keys.
+    Missing: the merge lemma (`collect` over a concatenation, `create_value_object` = group-then-merge
+    as in `c01_create_value_object_groups`, then associativity/idempotence of `merge` on values
+    completed from one resolver result — a SameShape invariant). -/
+def c02_data_mergeable_full : Prop :=
+  ∀ (S : Schema) (d : Doc) (opName : Option String) (raw : List (String × GValue)) (w : World),
+    ∀ fuel ≥ 3 * AGV.Spec.Exec.fuelBound d,
+    (∀ op, AGV.Spec.Exec.selectOp d opName = some op →
+      IsObj S (rootOf S op) ∧ DataHyps (runCtx S d op raw w) ∧
+      selsInert (AGV.Spec.Exec.coerceVars op.vars raw) op.sels = true ∧
+      mergeableKeys (runCtx S d op raw w) fuel (rootOf S op) op.sels = true) →
+    (Model.ExecDynamic.run Defects.none S d opName raw w fuel).val = (AGV.Spec.ExecDyn.run S d opName raw w fuel).val
 
 end AGV.Props.C02
